@@ -1527,21 +1527,32 @@ stream_decode_mt(void *coder_ptr, const lzma_allocator *allocator,
 		}
 
 		// Copy input to the worker thread.
+		//
+		// If the whole Block has already been copied, there is
+		// nothing to do. We can get here in that situation if
+		// read_output_and_wait() below returned LZMA_TIMED_OUT on
+		// the previous call. The worker thread may then have
+		// finished already and freed thr->in (it sets thr->in
+		// to NULL without a mutex), so thr->in must not be read.
 		size_t cur_in_filled = coder->thr->in_filled;
-		lzma_bufcpy(in, in_pos, in_size, coder->thr->in,
-				&cur_in_filled, coder->thr->in_size);
+		if (cur_in_filled < coder->thr->in_size) {
+			lzma_bufcpy(in, in_pos, in_size, coder->thr->in,
+					&cur_in_filled, coder->thr->in_size);
 
-		// Tell the thread how much we copied.
-		mythread_sync(coder->thr->mutex) {
-			coder->thr->in_filled = cur_in_filled;
+			// Tell the thread how much we copied.
+			mythread_sync(coder->thr->mutex) {
+				coder->thr->in_filled = cur_in_filled;
 
-			// NOTE: Most of the time we are copying input faster
-			// than the thread can decode so most of the time
-			// calling mythread_cond_signal() is useless but
-			// we cannot make it conditional because thr->in_pos
-			// is updated without a mutex. And the overhead should
-			// be very much negligible anyway.
-			mythread_cond_signal(&coder->thr->cond);
+				// NOTE: Most of the time we are copying
+				// input faster than the thread can decode
+				// so most of the time calling
+				// mythread_cond_signal() is useless but
+				// we cannot make it conditional because
+				// thr->in_pos is updated without a mutex.
+				// And the overhead should be very much
+				// negligible anyway.
+				mythread_cond_signal(&coder->thr->cond);
+			}
 		}
 
 		// Read output from the output queue. Just like in
